@@ -101,7 +101,7 @@ CHECKS.update({
 CHECKS.update({
     'C05': {
         'text': 'Theorems c05_target / c05_delete_target (after the revert the entity\'s versioned columns are the version\'s values, a DELETE version leaves it absent - also when it is absent already), c05_target_frame (no other row is touched when no relationship is named), c05_o2m / c05_o2m_frame (a named one-to-many relationship is restored to the set the version shows: children removed since come back with the values of their as-of version, children added since go away, nothing else changes), c05_m2m / c05_m2m_frame / c05_m2m_idem_eq (a named many-to-many relationship: the parent's links become exactly the shown ones, every shown entity carries its as-of values, links of other parents and tables and other rows stay, reverting twice changes nothing more; c05r_m2m_consistent_iff shows the hypothesis is exact), c05_m2o / c05_m2o_frame (many-to-one) over the row-level model of the reverter; that the revert is itself versioned is history_all. Tied to reverter.py by replaying every history on a fresh database for EVERY version row as target x {no relationship, each first-level relationship}, reverting, committing and judging the rows before/after with the Lean C05 predicates, the related set being computed by the Lean relationship model from the version tables.',
-        'note': TRACE_NOTE + ' PARTIAL: nested / cyclic relation paths are decided by the correspondence runs only; for many-to-many the theorem is about the model function revertM2M and the real result is judged by the predicate C05.M2MHolds (the model function itself is not compared with the real link table before the revert).',
+        'note': TRACE_NOTE + ' PARTIAL: nested / cyclic relation paths are decided by the correspondence runs only; for many-to-many / many-to-one the model functions revertM2M / revertM2O are run by the driver on the rows and links dumped BEFORE the revert and compared with the implementation's links and related rows afterwards, and the real result is judged by C05.M2MHolds / C05.M2OHolds.',
         'technique': 'Lean 4 theorems over the row-level revert model + exhaustive per-version-row differential runs judged by Lean predicates', 'engine': 'revert-harness'},
 })
 
